@@ -21,4 +21,24 @@ func init() {
 		Real:        []string{"vault.Core request path", "token store (UseToken, revocation)", "expiration manager", "ACL", "router", "barrier", "physical cache"},
 		Stub:        append([]string{"secrets engine used as workload (recbackend: records handler calls, issues/revokes leased secrets)"}, commonStub...),
 	}
+	props["C13"] = propCfg{
+		Level: "exploration", QuickS: 45, ThoroughS: 600, Chunk: 20000,
+		Rule:        "Each run draws a storage stack (bottom in {simdisk txn/plain, inmem txn/plain, file, Raft FSM(bbolt)}; optional key-encoding, cache of size 1..64, physical view, AES-GCM barrier, 0-2 nested storage views) and a history of 10-40 (thorough: up to 200) operations put/get/delete/list/list-page(after, limit) over nested keys with shared prefixes, also inside read-write and read-only transactions, plus CollectKeys/ClearView helpers, cache purges, close/reopen, and storage errors injected beneath the cache.",
+		LevelText:   "Seeded operation histories on every combination of backend and wrapping layer, each return value compared with a sorted-map reference model (get = last put; list = immediate children with folders; page = slice of the sorted listing strictly after `after`, at most `limit`); foreign keys planted outside a view's prefix must stay invisible and untouched; after an injected storage error the failed operation may have failed but every later read must be right.",
+		LevelNote:   "Trusted: the reference model (kvmodel.go, 80 lines) and the harness. Key domain: non-empty segments, no trailing slashes; list prefixes are empty or end in '/'. PostgreSQL backend not covered (no server in the sandbox). The RaftBackend (real single-node raft) variant is exercised under C08.",
+		Technique:   "deterministic simulation (single-threaded storage stacks): seeded operation and fault sequences against a reference model, with shrinking",
+		Assumptions: []string{"bbolt and the file system below the file backend are correct", "keys without empty segments or trailing slashes"},
+		Real:        []string{"inmem backend", "file backend", "Raft FSM over bbolt", "physical cache", "key-encoding layer", "physical.View", "AES-GCM barrier", "barrier/logical storage views and their transactions", "logical.CollectKeys / ClearView helpers"},
+		Stub:        []string{"simdisk as one of the bottoms (sorted map + log; it is itself checked against the model here)"},
+	}
+	props["C08"] = propCfg{
+		Level: "exploration", QuickS: 60, ThoroughS: 900, Chunk: 60000,
+		Rule:        "Each run draws a transactional stack (inmem or simdisk; optional key-encoding, cache, physical view, barrier, views; or the real single-node RaftBackend with a gated state machine) and an interleaving, at operation granularity, of up to 4 transactions (read-write and read-only; get/put/delete/list/list-page/commit/rollback) and plain writers over 6 keys in a two-level hierarchy, every written value unique.",
+		LevelText:   "Seeded op-granularity interleavings of concurrent transactions and plain writers on every transactional stack; committed transactions are replayed in commit order on a serial key/value model and must have observed exactly the model's values and listings (a transaction without writes must match one model version between its begin and end); failed commits must be conflict-class and leave no trace; no-concurrency commits must succeed; own writes visible; read-only and finished transactions refuse use. For Raft the schedule also decides when the state machine applies each queued entry, so transactions begin while the FSM lags behind Raft's applied index.",
+		LevelNote:   "Trusted: the serial model and the harness. PostgreSQL transactional backend not covered (no server in the sandbox). Raft runs use the real RaftBackend + hashicorp/raft single node with in-memory transport inside a synctest bubble; bbolt is trusted.",
+		Technique:   "deterministic simulation: seeded interleavings of transactions (and Raft FSM apply pacing) checked against a serial reference model in commit order",
+		Assumptions: []string{"list prefixes are empty or end in '/'", "bbolt is correct"},
+		Real:        []string{"inmem transactional backend", "physical cache + cache transactions", "key-encoding layer", "TransactionalAESGCMBarrier", "transactional storage views", "RaftBackend, raft FSM, fsmTxnCommitIndexTracker, hashicorp/raft (single node)"},
+		Stub:        []string{"simdisk as one of the bottoms", "Raft transport (in-memory), clock (synctest) for the Raft stacks"},
+	}
 }
